@@ -1883,6 +1883,45 @@ class World:
             self.flag("C04", "I5", "matrixpde", {"var": vent.name})
             return
 
+    # --------------------------------------------------------- op: matrixpde
+    def op_matrixpde(self, a, op, ctx):
+        """The expert-level flow: the user assembles boundary term + terms himself and
+        calls solveMatrixPDE; the *returned* variable (default BCs, ghost cells as
+        the linear system gave them) then lives on in the pool like any other."""
+        pf = self.pf
+        src = self.get(a["v"], "v")
+        ment = self.mesh_of(src)
+        if self.bcs_invalid(src) or not self.bc_ok(src):
+            raise Skip("BCs invalid or degenerate")
+        items = self._term_items(a["terms"])
+        if any(it[0] != "t" or it[1].meta.get("mesh") != ment.name for it in items):
+            raise Skip("terms")
+        for it in items:
+            ctx.relation[it[1].name] = "operand"
+        ctx.relation[src.name] = "operand"
+        try:
+            Mbc, Rbc = pf.boundaryConditionsTerm(src.obj.BCs)
+            M, RHS = O.assemble(Mbc, Rbc, [(it[1].obj, it[2], it[3]) for it in items])
+        except Exception:
+            raise Skip("assembly failed")
+        if not (np.all(np.isfinite(M.data)) and np.all(np.isfinite(RHS))):
+            raise Skip("non-finite system")
+        Mk, Rk = A.snap_csr(M), A.akey(RHS)
+        try:
+            res = pf.solveMatrixPDE(ment.obj, M, RHS)
+        except Exception as ex:
+            ctx.status = "raised:" + type(ex).__name__
+            return
+        if (A.snap_csr(M), A.akey(RHS)) != (Mk, Rk):
+            self.flag("C15", "I1", "solveMatrixPDE/t/operand", {"var": src.name})
+        if not np.all(np.isfinite(A.full_array(res))):
+            ctx.status = "singular"
+            return
+        e = self.register_var(op["out"], res, ment.name, "matrixpde", ctx, parents=(src.name,),
+                              bc_out=op.get("outb"), created_kind="matrixpde", ghost_trusted=False)
+        self.probes["var:returned-by-solveMatrixPDE"] += 1
+        ctx.i3.append(e.name)
+
     # ---------------------------------------------------------- op: explicit
     def op_explicit(self, a, op, ctx):
         pf = self.pf
